@@ -205,8 +205,8 @@ def generate(ctx):
     yield 'dfi', {'eq': 'shallow_water', 'pairs': pairs, 'run': [0, 1] if quick else [0, 1, 2, 3], 'scales': TIME_UNIT_SCALES, 'seed': seed()}
     yield 'dfi', {'eq': 'dry', 'pairs': pairs, 'run': [3] if quick else [0, 1, 2, 3], 'scales': TIME_UNIT_SCALES, 'seed': seed()}
     # winds <-> vorticity/divergence through the library's jitted helpers, several scales in one process, both orders
-    for _ in range(1 if quick else 3):
-        yield 'winds', {'scales': _scales(ctx, 2), 'seed': seed()}
+    for i_ in range(1 if quick else 3):
+        yield 'winds', {'scales': _scales(ctx, 2), 'seed': seed(), 'grid': [None, {'impl': 'fast', 'base_shape_multiple': 4}, {'impl': 'fast'}][i_]}
     yield 'threshold_scan', {}
     # options, layouts, sizes and structured data (checklist of the robustness review); one scale pair each
     FAST = {'impl': 'fast'}; PAD4 = {'impl': 'fast', 'base_shape_multiple': 4}; PAD8 = {'impl': 'fast', 'base_shape_multiple': 8}
@@ -675,7 +675,9 @@ def r_init_states(ctx, a):
     # every argument non-default; written once in base-like units and once in other units / as strings
     kw_isos = [dict(tref=v['tref'] * u.degK, p0=v['p0'] * u.pascal, p1=v['p1'] * u.pascal, surface_height=height * u.m),
                dict(tref='%r kelvin' % v['tref'], p0='%r hPa' % (v['p0'] / 100.0), p1=(v['p1'] / 100.0) * u.hPa, surface_height=(height / 1000.0) * u.km)]
-    jw_opts = dict(sigma_tropo=float(rng.integers(15, 30)) / 100.0, sigma0=float(rng.integers(20, 30)) / 100.0)
+    cen = np.sort(np.asarray(dyn.coords(g0, b).vertical.centers)); mids = [(cen[0] + cen[1]) / 2, (cen[1] + cen[2]) / 2]
+    # tropopause level between two layer centres, the one farther from the default 0.2
+    jw_opts = dict(sigma_tropo=float(max(mids, key=lambda t: abs(t - 0.2))), sigma0=float(rng.integers(20, 30)) / 100.0)
     kw_jws = [dict(u0=v['u0'] * u.m / u.s, p0=1e5 * u.pascal, t0=v['t0'] * u.degK, delta_t=v['delta_t'] * u.degK, gamma=0.001 * v['gamma'] * u.degK / u.m, **jw_opts),
               dict(u0=3.6 * v['u0'] * u.km / u.hour, p0=1000.0 * u.hPa, t0=u.Quantity(v['t0'] - 273.15, u.degC), delta_t=(v['delta_t'] / 1000.0) * u.kilokelvin,
                    gamma=v['gamma'] * u.degK / u.km, **jw_opts)]
@@ -861,10 +863,11 @@ def r_dfi(ctx, a):
 def r_winds(ctx, a):
     m = M(); sh = m['sh']; pe = m['pe']; jnp = m['jnp']
     rng = np.random.Generator(np.random.PCG64(a['seed']))
-    g0 = dyn.grid(); consts = _si_constants(rng)
+    gkw = dict(a.get('grid') or {})
+    g0 = dyn.grid(**gkw); consts = _si_constants(rng)
     # SI winds (m/s) of a band-limited flow: diagnosed once, with the grid methods, from SI vorticity / divergence on a
     # grid whose radius is the SI radius in metres
-    g_si = dyn.grid(radius=float(consts['radius_si'].to('meter').magnitude))
+    g_si = dyn.grid(radius=float(consts['radius_si'].to('meter').magnitude), **gkw)
     vor_si = dyn.modal_field(rng, g_si, (2,), 2, True, 2e-5); div_si = dyn.modal_field(rng, g_si, (2,), 2, True, 4e-6)
     cu, cv = sh.get_cos_lat_vector(jnp.asarray(vor_si), jnp.asarray(div_si), g_si, clip=False)
     usi = np.asarray(g_si.to_nodal(cu)) / np.asarray(g_si.cos_lat); vsi = np.asarray(g_si.to_nodal(cv)) / np.asarray(g_si.cos_lat)
@@ -874,7 +877,7 @@ def r_winds(ctx, a):
     grids = {}
     for n, sv in enumerate(order):
         specs = _register(pe.PrimitiveEquationsSpecs.from_si(scale=_scale(sv), **consts), sv)
-        g = dyn.grid(radius=specs.radius); grids[json_key(sv)] = g
+        g = dyn.grid(radius=specs.radius, **gkw); grids[json_key(sv)] = g
         und = jnp.asarray(_ND(specs, usi, 'meter/second')); vnd = jnp.asarray(_ND(specs, vsi, 'meter/second'))
         vor, div = sh.uv_nodal_to_vor_div_modal(g, und, vnd)
         # the same computation with the (non-jitted) grid methods
@@ -901,7 +904,7 @@ def r_winds(ctx, a):
     ctx.oracle('grids that differ only in radius are different jit-static arguments (g1 != g2)', bool(ok),
                {'radii': [float(g.radius) for g in gs]})
     import dataclasses
-    g1 = dyn.grid(radius=1.0); g2 = dataclasses.replace(g1, radius=2.0)
+    g1 = dyn.grid(radius=1.0, **gkw); g2 = dataclasses.replace(g1, radius=2.0)
     ctx.oracle('grids that differ only in radius are different jit-static arguments (g1 != g2)', bool(g1 != g2), {'radii': [1.0, 2.0]})
 
 
